@@ -10,6 +10,7 @@ import (
 	"runtime/debug"
 	"strconv"
 	"strings"
+	"sync"
 	"testing"
 	"time"
 
@@ -452,15 +453,29 @@ func bodyGen(event bool) *rapid.Generator[bodyCase] {
 			plain = nil
 			desc = "empty"
 		case 5:
-			plain = make([]byte, 1<<20)
-			desc = "1MiB-zeros"
+			// highly compressible: a few KiB on the wire, megabytes after decompression (around and beyond round limits)
+			n := rapid.SampledFrom([]int{1 << 20, 1 << 20, 4 << 20, 4<<20 + 1, 5 << 20, 16 << 20, 40 << 20}).Draw(t, "zeros")
+			plain = zeros(n)
+			desc = fmt.Sprintf("%dMiB-zeros", n>>20)
 		default:
 			// deeply nested / repeated field garbage that is still length-delimited
 			plain = bytes.Repeat([]byte{0x0a, 0x02, 0x0a, 0x00}, rapid.IntRange(1, 2000).Draw(t, "rep"))
 			desc = "repeated-fields"
 		}
 		wire := rapid.SampledFrom([]string{"", "deflate", "lz4"}).Draw(t, "compress-with")
-		body := compress(wire, plain, rapid.IntRange(0, 9).Draw(t, "level"))
+		level := rapid.IntRange(0, 9).Draw(t, "level")
+		var body []byte
+		if len(plain) > 1<<20 {
+			if wire == "" {
+				wire = "deflate" // megabytes of zeros travel compressed
+			}
+			if level == 0 {
+				level = 1
+			}
+			body = compressedZeros(wire, len(plain), level)
+		} else {
+			body = compress(wire, plain, level)
+		}
 		if rapid.IntRange(0, 5).Draw(t, "damage-compressed") == 0 && len(body) > 0 {
 			i := rapid.IntRange(0, len(body)-1).Draw(t, "cflip")
 			body = append([]byte(nil), body...)
@@ -476,10 +491,10 @@ func bodyGen(event bool) *rapid.Generator[bodyCase] {
 		case "", "identity":
 			passes = true
 		case "deflate":
-			_, err := web.DecompressWithZlib(body)
+			_, err := fakes.Inflate("deflate", body)
 			passes = err == nil
 		case "lz4":
-			_, err := web.DecompressWithLz4(body)
+			_, err := fakes.Inflate("lz4", body)
 			passes = err == nil
 		}
 		return bodyCase{body: body, encoding: enc, desc: desc + "/wire=" + wire + "/enc=" + encLabel(enc), passes: passes}
@@ -524,8 +539,8 @@ func serve(t vt.TB, router http.Handler, path string, body []byte, enc string) (
 			vt.Fail(t, "C03:http-panic", "%s with Content-Encoding %q panicked on a %d-byte body: %v", path, enc, len(body), r.p)
 		}
 		return r.code
-	case <-time.After(120 * time.Second):
-		vt.Fail(t, "C03:http-wedged", "%s with Content-Encoding %q did not answer a %d-byte body within 120s", path, enc, len(body))
+	case <-time.After(45 * time.Second):
+		vt.Fail(t, "C03:http-wedged", "%s with Content-Encoding %q did not answer a %d-byte body within 45s", path, enc, len(body))
 	}
 	return 0
 }
@@ -647,3 +662,35 @@ func fuzzHTTP(f *testing.F, path string) {
 
 func FuzzHTTPRaw(f *testing.F)   { fuzzHTTP(f, "/v2/raw") }
 func FuzzHTTPEvent(f *testing.F) { fuzzHTTP(f, "/v2/event") }
+
+var (
+	zeroMu    sync.Mutex
+	zeroBuf   []byte
+	zeroCache = map[string][]byte{}
+)
+
+// zeros returns n zero bytes (shared, read-only).
+func zeros(n int) []byte {
+	zeroMu.Lock()
+	defer zeroMu.Unlock()
+	if len(zeroBuf) < n {
+		zeroBuf = make([]byte, n)
+	}
+	return zeroBuf[:n]
+}
+
+// compressedZeros memoises the compressed form of n zero bytes: compressing 40 MiB per case would dominate the run.
+func compressedZeros(wire string, n, level int) []byte {
+	key := fmt.Sprintf("%s/%d/%d", wire, n, level)
+	zeroMu.Lock()
+	b, ok := zeroCache[key]
+	zeroMu.Unlock()
+	if ok {
+		return b
+	}
+	b = compress(wire, zeros(n), level)
+	zeroMu.Lock()
+	zeroCache[key] = b
+	zeroMu.Unlock()
+	return b
+}
